@@ -380,6 +380,42 @@ type interp struct {
 	w *world
 }
 
+var devConfig *common.ChainConfig
+
+// setConfig switches the fork schedule to one of the three networks' (values copied from common/version.go;
+// the T-gen fact `forkFlagsOnPath` pins which flags the miner path reads). Sessions under mainnet/robin run at
+// heights beyond every proposal of that network, where all flags on the path have the values the model fixes.
+func setConfig(name string) bool {
+	if devConfig == nil {
+		c := common.LocalChainConfig
+		devConfig = &c
+	}
+	c := *devConfig
+	set := func(chain string, v []uint64) {
+		c.ChainId, c.NetworkId = chain, chain
+		c.Proposal001Block, c.Proposal002Block, c.Proposal003Block, c.Proposal004Block, c.Proposal005Block = v[0], v[1], v[2], v[3], v[4]
+		c.Proposal006Block, c.Proposal007Block, c.Proposal008Block, c.Proposal009Block, c.Proposal010Block = v[5], v[6], v[7], v[8], v[9]
+		c.Proposal011Block, c.Proposal012Block, c.Proposal013Block, c.Proposal014Block, c.Proposal015Block = v[10], v[11], v[12], v[13], v[14]
+		c.Proposal016Block, c.Proposal017Block, c.Proposal018Block, c.Proposal019Block, c.Proposal020Block = v[15], v[16], v[17], v[18], v[19]
+		c.Proposal021Block, c.Proposal022Block, c.Proposal023Block, c.Proposal024Block, c.Proposal025Block = v[20], v[21], v[22], v[23], v[24]
+		c.Proposal026Block, c.Proposal027Block = v[25], v[26]
+	}
+	const never = ^uint64(0)
+	switch name {
+	case "dev":
+	case "mainnet":
+		set("2025", []uint64{894116, 3353000, 3830000, 5310000, 10293600, 16733000, 16082000, 16082000, 16733000, never, 11750354, 22815000,
+			28998000, 48081000, 53015000, 54038500, 54038500, 55959500, never, 61794000, 61202000, 62606000, 63100000, 62575384, 63311000, 64666400, 69329000})
+	case "robin":
+		set("9527", []uint64{0, 2802000, 3380000, 5310000, 10003000, 12582000, 14261000, 16058000, 16740000, 19632000, never, 23120000,
+			29063000, 0, 61205000, 62320000, 62997000, 65795000, 66114000, 75248100, 74312000, 76005000, 77826000, 0, 77920000, 79365500, 84150000})
+	default:
+		return false
+	}
+	common.LocalChainConfig = c
+	return true
+}
+
 func (ip *interp) exec(line string) string {
 	t := strings.Fields(line)
 	if len(t) == 0 {
@@ -387,6 +423,12 @@ func (ip *interp) exec(line string) string {
 	}
 	u64 := func(s string) uint64 { v, _ := strconv.ParseUint(s, 10, 64); return v }
 	bs := func(s string) []byte { b, _ := hx.UnHex(s); return b }
+	if t[0] == "config" {
+		if len(t) == 2 && setConfig(t[1]) {
+			return "ok"
+		}
+		return "bad-op"
+	}
 	if t[0] != "reset" && ip.w == nil {
 		return "bad-op"
 	}
